@@ -14,6 +14,20 @@ def mutate(payload):
     rnd = random.Random(payload.get("seed", 0))
     cases = 0
     orig = torch.rand
+    if payload.get("mode") == "replay":      # the verifier's counterexample
+        dt = float if payload["dtype"] == "float" else int
+        p = RLParameter(min=payload["min"], max=payload["max"], shrink_factor=payload["shrink"], grow_factor=payload["grow"], dtype=dt)
+        p.value = payload["value"]
+        torch.rand = lambda *a, **k: torch.tensor([payload["draw"]])
+        try:
+            r = p.mutate()
+        finally:
+            torch.rand = orig
+        f = p.shrink_factor if payload["draw"] < 0.5 else p.grow_factor
+        exp = dt(_clip(payload["value"] * f, p.min, p.max))
+        bad = (r != exp) or (dt is float and p.min <= p.max and not (p.min <= r <= p.max))
+        return {"status": "fail" if bad else "pass", "cases": 1, "input": payload,
+                "detail": f"mutate() of {payload['value']} with draw {payload['draw']} gave {r}, expected {dt.__name__}(clip(value*{f}, {p.min}, {p.max})) = {exp}"}
     try:
         for _ in range(400):
             dt = rnd.choice([float, int])
